@@ -210,6 +210,12 @@ class Array(AbstractPriorModel):
         """
         new_array = Array(self.shape)
         for index in self.indices:
-            new_array[index] = self[index].gaussian_prior_model_for_arguments(arguments)
+            value = self[index]
+            try:
+                value = value.gaussian_prior_model_for_arguments(arguments)
+            except AttributeError:
+                # entries may be fixed values
+                pass
+            new_array[index] = value
 
         return new_array
